@@ -244,7 +244,8 @@ def _(run):
     from pyvc.se import new_state, VObj, VOpt, VBool, VStr, VExc, VTuple, OPAQUE, NONE, SV, Unsupported
     ex = run.exec(); st = new_state()
     is_inst, given_none, loaded, hints, fetch_fails, cls_none, cls_ok = (z3.Bool(n) for n in ('schema_is_an_instance', 'schema_is_None', 'root_namespace_loaded_in_the_schema', 'use_location_hints', 'no_location_found', 'cls_is_None', 'cls_is_a_schema_class'))
-    st.objf['schema'] = {}; st.objf['resource'] = {}; st.objf['built'] = {}; st.objf['cls'] = {}
+    rns, tns = z3.String('root_namespace'), z3.String('schema_target_namespace')
+    st.objf['schema'] = {'target_namespace': VStr(tns)}; st.objf['resource'] = {'namespace': VStr(rns)}; st.objf['built'] = {}; st.objf['cls'] = {}
     st.env.update(resource=VObj('resource'), schema=VOpt(given_none, VObj('schema')), cls=VOpt(cls_none, VObj('cls')), validation=VStr(z3.String('validation')), locations=OPAQUE,
                   use_location_hints=VBool(hints), kwargs=OPAQUE)
     st.ghost['built'] = ()
@@ -276,16 +277,16 @@ def _(run):
 
     def e_Compare(e, s):
         src = ast.unparse(e)
-        if src == 'resource.namespace in schema.maps.namespaces': return VBool(loaded)
-        if src == 'XSD_NAMESPACE == resource.namespace': return VBool(z3.Bool('root_is_in_the_XSD_namespace'))
+        if len(e.ops) == 1 and isinstance(e.ops[0], ast.In) and ast.unparse(e.comparators[0]) == 'schema.maps.namespaces' and ast.unparse(e.left) == 'resource.namespace': return VBool(loaded)
         if src == 'XSI_TYPE in resource.root.attrib': return VBool(z3.Bool('root_has_xsi_type'))
         return orig_compare(e, s)
     ex.e_Compare = e_Compare
     ex.e_Attribute = lambda e, s: VObj('meta') if ast.unparse(e) == 'cls.meta_schema' else OPAQUE if ast.unparse(e).startswith('resource.root') else orig_attr(e, s)
     st.objf['meta'] = {}
     ex.assign = lambda tg, v, s: [('fall', None, s)] if ast.unparse(tg) == "kwargs['locations']" else orig_assign(tg, v, s)
-    pre = z3.Implies(is_inst, z3.Not(given_none))
-    run.inputs.update(schema_is_an_instance=is_inst, schema_is_None=given_none, namespace_loaded=loaded, use_location_hints=hints, no_location_found=fetch_fails)
+    # the target namespace of a schema is one of the namespaces of its maps
+    pre = z3.And(z3.Implies(is_inst, z3.Not(given_none)), z3.Implies(rns == tns, loaded))
+    run.inputs.update(root_namespace=rns, schema_target_namespace=tns, schema_is_an_instance=is_inst, schema_is_None=given_none, namespace_loaded=loaded, use_location_hints=hints, no_location_found=fetch_fails)
     outs = ex.run(st, pre)
     given = lambda v: isinstance(v, VObj) and v.name == 'schema' or (isinstance(v, VOpt) and isinstance(v.val, VObj) and v.val.name == 'schema')
 
@@ -294,6 +295,6 @@ def _(run):
         return z3.Implies(cond, z3.BoolVal(kind == 'return' and given(v) and not s.ghost['built']))
 
     def never_from_nothing(kind, v, s):
-        cond = z3.And(given_none, z3.Or(z3.Not(hints), fetch_fails), z3.Not(z3.Bool('root_is_in_the_XSD_namespace')), z3.Not(z3.Bool('root_has_xsi_type')), st.env['validation'].t != SV('skip'), z3.Or(cls_none, cls_ok))
+        cond = z3.And(given_none, z3.Or(z3.Not(hints), fetch_fails), rns != SV('http://www.w3.org/2001/XMLSchema'), z3.Not(z3.Bool('root_has_xsi_type')), st.env['validation'].t != SV('skip'), z3.Or(cls_none, cls_ok))
         return z3.Implies(cond, z3.BoolVal(kind == 'raise' and isinstance(v, VExc) and v.cls is XMLSchemaValueError))
     run.post(ex, outs, pre, {'a-given-instance-that-knows-the-root-namespace-is-returned-as-it-is': keeps, 'no-schema-argument-and-no-hint-is-an-error': never_from_nothing})
